@@ -436,9 +436,12 @@ class Spectrum:
             Wavelength units, as accepted by :func:`Unit`. Default is ``nm``.
 
         """
-        self.value = self.sample(wave, method=method, fill_value=fill_value,
-                                 waveunit=waveunit)
+        value = self.sample(wave, method=method, fill_value=fill_value,
+                            waveunit=waveunit)
+        # assign wave first: its setter validates the new grid, so an invalid
+        # grid is rejected before anything has been overwritten
         self.wave = wave
+        self.value = value
         self.waveunit = waveunit
 
     def bin(self, wave, interp_method='simps', ends='symmetric', preserve_power=True,
